@@ -13,7 +13,7 @@ import ast
 from typing import Callable, Optional
 
 from ..paths import enumerate_paths
-from ..program import AnalysisError, FuncInfo, Program, unparse, short, walk_no_nested, bool_table, expand_locals, single_defs
+from ..program import AnalysisError, FuncInfo, Program, unparse, short, walk_no_nested, bool_table, expand_locals, single_defs, xunparse, inline_helpers
 from ..report import Report
 from ..words import cmp_norm
 from .. import statefx
@@ -154,10 +154,176 @@ def position_guard(cp: FuncInfo):
     return found is not None, found
 
 
+
+class _NormUnknown(Exception):
+    pass
+
+
+def subgrid_normalisation(prog: Program, rep: Report, rule: str, gi, guards) -> None:
+    """What the sanity check sees must be the configured limit itself (>= 0) or extent + limit (< 0):
+    any other mapping (a modulo, a clip) turns some illegal specification into a legal one before the
+    check looks at it. The statements between `limits = ...` and the check are evaluated on symbolic
+    limits L0..L3 for all 16 sign combinations."""
+    import itertools
+
+    from ..nf import NF
+
+    body = gi.node.body
+    start = next((i for i, st in enumerate(body) if isinstance(st, (ast.Assign, ast.AnnAssign)) and unparse(st.targets[0] if isinstance(st, ast.Assign) else st.target) == "limits"), None)
+    end = next((i for i, st in enumerate(body) if guards and st is guards[0]), None)
+    if start is None or end is None or end <= start:
+        rep.add(rule, gi.qual, "subgrid limits reach the sanity check unchanged (negative ones counted from the far edge)", None, "`limits = ...` followed by the sanity check was not found at the top level of Grid.__init__", gi.loc())
+        return
+    stmts = body[start + 1 : end]
+    ext = {0: NF.atom("imax0"), 1: NF.atom("imax0"), 2: NF.atom("jmax0"), 3: NF.atom("jmax0")}
+    problems, unknown = [], []
+    for signs in itertools.product((True, False), repeat=4):  # True: limit >= 0
+        raw = [NF.atom(f"L{k}") for k in range(4)]
+        lim = list(raw)
+        env: dict = {}
+
+        def ev(e):
+            if isinstance(e, ast.Constant) and isinstance(e.value, (int, float)) and not isinstance(e.value, bool):
+                return NF.const(e.value)
+            if isinstance(e, ast.Name):
+                if e.id in env:
+                    return env[e.id]
+                if e.id in ("imax0", "jmax0"):
+                    return NF.atom(e.id)
+                raise _NormUnknown(e.id)
+            if isinstance(e, ast.Subscript) and unparse(e.value) == "limits":
+                i = ev(e.slice)
+                if isinstance(i, int):
+                    return lim[i]
+                if isinstance(i, NF) and not i.atoms():
+                    return lim[int(i.const_value())]
+                raise _NormUnknown(unparse(e))
+            if isinstance(e, ast.BinOp):
+                a, b = ev(e.left), ev(e.right)
+                if isinstance(a, int):
+                    a = NF.const(a)
+                if isinstance(b, int):
+                    b = NF.const(b)
+                if isinstance(e.op, ast.Add):
+                    return a + b
+                if isinstance(e.op, ast.Sub):
+                    return a - b
+                if isinstance(e.op, ast.Mod):
+                    return NF.atom(f"mod({a.canon()};{b.canon()})")
+                raise _NormUnknown(unparse(e))
+            if isinstance(e, ast.IfExp):
+                return ev(e.body) if test(e.test) else ev(e.orelse)
+            if isinstance(e, ast.Call) and unparse(e.func) in ("int",) and len(e.args) == 1:
+                return ev(e.args[0])
+            raise _NormUnknown(unparse(e))
+
+        def test(t):
+            if isinstance(t, ast.Compare) and len(t.ops) == 1:
+                a, b = ev(t.left), ev(t.comparators[0])
+                a = NF.const(a) if isinstance(a, int) else a
+                b = NF.const(b) if isinstance(b, int) else b
+                for x, y, flip in ((a, b, False), (b, a, True)):
+                    ks = [k for k in range(4) if x == raw[k]]
+                    if ks and not y.atoms() and y == NF.const(0):
+                        nonneg = signs[ks[0]]
+                        op = type(t.ops[0])
+                        if flip:
+                            op = {ast.Lt: ast.Gt, ast.LtE: ast.GtE, ast.Gt: ast.Lt, ast.GtE: ast.LtE}.get(op, op)
+                        if op is ast.Lt:
+                            return not nonneg
+                        if op is ast.GtE:
+                            return nonneg
+                raise _NormUnknown(unparse(t))
+            if isinstance(t, ast.UnaryOp) and isinstance(t.op, ast.Not):
+                return not test(t.operand)
+            raise _NormUnknown(unparse(t))
+
+        def indices(sl):
+            if isinstance(sl, ast.Slice) and sl.step is None:
+                lo = 0 if sl.lower is None else int(ast.literal_eval(sl.lower))
+                hi = 4 if sl.upper is None else int(ast.literal_eval(sl.upper))
+                return list(range(lo, hi))
+            raise _NormUnknown("slice")
+
+        def run(sts):
+            for st in sts:
+                if isinstance(st, ast.Expr):
+                    continue
+                if isinstance(st, ast.For) and isinstance(st.target, ast.Name) and not st.orelse:
+                    it_ = st.iter
+                    if isinstance(it_, (ast.List, ast.Tuple)) and all(isinstance(x, ast.Constant) for x in it_.elts):
+                        vals = [x.value for x in it_.elts]
+                    elif isinstance(it_, ast.Call) and unparse(it_.func) == "range" and all(isinstance(a, ast.Constant) for a in it_.args):
+                        vals = list(range(*[a.value for a in it_.args]))
+                    else:
+                        raise _NormUnknown(unparse(it_))
+                    for v in vals:
+                        env[st.target.id] = v
+                        run(st.body)
+                    continue
+                if isinstance(st, ast.If):
+                    run(st.body if test(st.test) else st.orelse)
+                    continue
+                if isinstance(st, ast.Assign) and len(st.targets) == 1:
+                    t = st.targets[0]
+                    if isinstance(t, ast.Subscript) and unparse(t.value) == "limits":
+                        if isinstance(t.slice, ast.Slice):
+                            idx = indices(t.slice)
+                            v = st.value
+                            if isinstance(v, ast.ListComp) and len(v.generators) == 1 and isinstance(v.generators[0].target, ast.Name) and not v.generators[0].ifs and isinstance(v.generators[0].iter, ast.Subscript) and unparse(v.generators[0].iter.value) == "limits" and indices(v.generators[0].iter.slice) == idx:
+                                new = []
+                                for k in idx:
+                                    env[v.generators[0].target.id] = lim[k]
+                                    new.append(ev(v.elt))
+                                for k, nv in zip(idx, new):
+                                    lim[k] = nv
+                                continue
+                            raise _NormUnknown(short(st))
+                        i = ev(t.slice)
+                        lim[i if isinstance(i, int) else int(i.const_value())] = ev(st.value)
+                        continue
+                    if isinstance(t, ast.Name) and t.id != "limits":
+                        try:
+                            env[t.id] = ev(st.value)
+                        except _NormUnknown:
+                            env.pop(t.id, None)  # a temporary that does not feed the limits (e.g. limits_ok = ...)
+                        continue
+                    raise _NormUnknown(short(st))
+                if isinstance(st, ast.AugAssign) and isinstance(st.target, ast.Subscript) and unparse(st.target.value) == "limits" and isinstance(st.op, ast.Add):
+                    i = ev(st.target.slice)
+                    i = i if isinstance(i, int) else int(i.const_value())
+                    lim[i] = lim[i] + ev(st.value)
+                    continue
+                raise _NormUnknown(short(st))
+
+        try:
+            run(stmts)
+        except _NormUnknown as e:
+            unknown.append(str(e))
+            continue
+        except Exception as e:  # noqa: BLE001
+            unknown.append(f"{type(e).__name__}: {e}")
+            continue
+        for k in range(4):
+            want = raw[k] if signs[k] else ext[k] + raw[k]
+            if not (isinstance(lim[k], NF) and lim[k] == want):
+                problems.append(f"limit {k} ({'>= 0' if signs[k] else '< 0'}) reaches the check as {lim[k]}, must be {want}")
+    label = "subgrid limits reach the sanity check unchanged (negative ones counted from the far edge)"
+    if problems:
+        rep.bad(rule, gi.qual, label, "; ".join(sorted(set(problems))[:3]) + ": an out-of-range limit can be mapped onto a legal one before the check sees it, and the run starts on another subgrid", gi.loc(stmts[0]) if stmts else gi.loc())
+    elif unknown:
+        rep.add(rule, gi.qual, label, None, f"normalisation outside the evaluator: {unknown[0]}", gi.loc())
+    else:
+        rep.ok(rule, gi.qual, label, "16 sign combinations", gi.loc())
+
+
 def fault_table(prog: Program, rep: Report) -> None:
     rule = "R20.2"
     # (a) missing start / stop / dt
-    tk = prog.role_func("time", "__init__")
+    from ..program import unroll_literal_loops
+
+    tk0 = prog.role_func("time", "__init__")
+    tk = FuncInfo(tk0.module, tk0.qual, unroll_literal_loops(tk0.node), tk0.cls)  # table-driven checks read like repeated ifs
     params = [p for p in tk.params if p not in ("self", "modules")]
     for want in ("start", "stop", "dt"):
         if want not in params:
@@ -297,13 +463,14 @@ def fault_table(prog: Program, rep: Report) -> None:
         return None
 
     sg = []
-    for g in [n for n in walk_no_nested(gi.node) if isinstance(n, ast.If) and "limits[0]" in unparse(n.test) and "limits[2]" in unparse(n.test)]:
+    for g in [n for n in walk_no_nested(gi.node) if isinstance(n, ast.If) and "limits[0]" in xunparse(n.test, gi.node) and "limits[2]" in xunparse(n.test, gi.node)]:
         tb = bool_table(expand_locals(g.test, gi.node), chain_atom)
         okc = tb is not None and tb[0] == ["A", "B"] and all(val == (not (asg[0] and asg[1])) for asg, val in tb[1].items())
         rep.check(rule, gi.qual, "subgrid test is true exactly when not (1 <= i0 < i1 <= imax-1 and 1 <= j0 < j1 <= jmax-1)", okc, what_bad=f"test is `{short(g.test, 120)}`: every legal subgrid lies strictly inside the rho grid with at least one cell on both axes", what_ok="both axes, interior cells only", loc=gi.loc(g))
         if okc:
             sg.append(g)
     guard(rep, prog, rule, gi, "illegal subgrid", sg, "no sanity check of the subgrid limits that stops the run")
+    subgrid_normalisation(prog, rep, rule, gi, sg)
     shp = [n for n in walk_no_nested(gi.node) if isinstance(n, ast.Assign) and unparse(n.targets[0]) in ("(jmax0, imax0)", "jmax0, imax0")]
     rep.check(rule, gi.qual, "jmax0, imax0 = shape of h (y first)", len(shp) == 1, what_bad="grid extent unpacked in the wrong order", what_ok="ok", loc=gi.loc())
 
@@ -330,7 +497,7 @@ def startup_reachability(prog: Program, rep: Report) -> None:
     rep.check(rule, wr.qual, "no record is written during start-up", wr.qual not in reach, what_bad="Output.write is reachable from a constructor / configure: a record may exist before a later guard stops the run", what_ok="reachable from Model.update only", loc=wr.loc())
     rep.check(rule, "model.Model.__init__", "output is constructed last", prog.role_order and prog.role_order[-1] == "output", what_bad=f"construction order {prog.role_order}: the output file is created before a later constructor can refuse the set-up", what_ok="last", loc="ladim/model.py")
     # main: configure and Model() precede the loop (R19.2) - reuse
-    mn = prog.func("main.main")
+    mn = inline_helpers(prog, prog.func("main.main"))
     order = [unparse(n.func) for n in walk_no_nested(mn.node) if isinstance(n, ast.Call) and unparse(n.func) in ("configure", "Model", "model.update", "model.finish")]
     rep.check(rule, mn.qual, "main: configure, Model, then the time loop", order[:3] == ["configure", "Model", "model.update"], what_bad=f"order {order}", what_ok="ok", loc=mn.loc())
 
@@ -400,6 +567,9 @@ AUDIT = [
     Mut("position-and", RL, '            if "lon" not in df.columns or "lat" not in df.columns:', '            if "lon" not in df.columns and "lat" not in df.columns:', rule="R20.2"),
     Mut("no-forcing-files-accepted", RO, '        if numfiles == 0:\n            logger.error("No forcing file: %s", filename)\n            raise SystemExit(3)\n', "", rule="R20.2"),
     Mut("grid-open-swallowed", RO, '        except OSError as err:\n            logger.critical("Could not open grid file %s", filename)\n            raise SystemExit(1) from err', '        except OSError as err:\n            logger.critical("Could not open grid file %s", filename)', rule="R20"),
+    Mut("subgrid-limits-modulo", RO, "        for i in [0, 1]:\n            if limits[i] < 0:\n                limits[i] = imax0 + limits[i]\n        for i in [2, 3]:\n            if limits[i] < 0:\n                limits[i] = jmax0 + limits[i]\n", "        limits[:2] = [i % imax0 for i in limits[:2]]\n        limits[2:] = [j % jmax0 for j in limits[2:]]\n", rule="R20.2"),
+    Mut("subgrid-negative-wrong-extent", RO, "                limits[i] = jmax0 + limits[i]\n", "                limits[i] = imax0 + limits[i]\n", rule="R20.2"),
+    Mut("benign-subgrid-comprehension", RO, "        for i in [0, 1]:\n            if limits[i] < 0:\n                limits[i] = imax0 + limits[i]\n        for i in [2, 3]:\n            if limits[i] < 0:\n                limits[i] = jmax0 + limits[i]\n", "        limits[:2] = [i + imax0 if i < 0 else i for i in limits[:2]]\n        limits[2:] = [j + jmax0 if j < 0 else j for j in limits[2:]]\n", expect="silent"),
     Mut("subgrid-le", RO, "        if (not 1 <= limits[0] < limits[1] <= imax0 - 1) or (", "        if (not 1 <= limits[0] <= limits[1] <= imax0 - 1) or (", rule="R20.2"),
     Mut("subgrid-and", RO, "        if (not 1 <= limits[0] < limits[1] <= imax0 - 1) or (\n            not 1 <= limits[2] < limits[3] <= jmax0 - 1\n        ):", "        if (not 1 <= limits[0] < limits[1] <= imax0 - 1) and (\n            not 1 <= limits[2] < limits[3] <= jmax0 - 1\n        ):", rule="R20.2"),
     Mut("tracker-section-defaulted", CF, '    # tracker is mandatory, raise KeyError if missing\n    if config["tracker"] is None:', '    if "tracker" not in config:\n        config["tracker"] = dict()\n    if config["tracker"] is None:', rule="R20.2"),
